@@ -468,21 +468,23 @@ pub fn run(tier: &str) -> i32 {
             for r2 in 0..TRULES.len() {
                 for f2 in 0..TFILES.len() {
                     for fmt in TFMT {
-                        dcases.push((r1, f1, r2, f2, fmt));
+                        // the two rules files are called x / y, or r1 / r10 (one name a prefix of the other)
+                        dcases.push((r1, f1, r2, f2, fmt, ("x", "y")));
+                        dcases.push((r1, f1, r2, f2, fmt, ("r1", "r10")));
                     }
                 }
             }
         }
     }
     let dr = crate::par::run(dcases.len(), 0, None, Acc::new, |k, acc| {
-        let (r1, f1, r2, f2, fmt) = dcases[k];
-        let tag = format!("td_{}_{}_{}_{}", r1, f1, r2, f2);
+        let (r1, f1, r2, f2, fmt, (nx, ny)) = dcases[k];
+        let tag = format!("td_{}_{}_{}_{}_{}", r1, f1, r2, f2, nx);
         let base = workdir().join(&tag);
         if !base.exists() {
-            put(&format!("{}/x.guard", tag), TRULES[r1].1);
-            put(&format!("{}/tests/x_t.yaml", tag), TFILES[f1].1);
-            put(&format!("{}/y.guard", tag), TRULES[r2].1);
-            put(&format!("{}/tests/y_t.yaml", tag), TFILES[f2].1);
+            put(&format!("{}/{}.guard", tag, nx), TRULES[r1].1);
+            put(&format!("{}/tests/{}_t.yaml", tag, nx), TFILES[f1].1);
+            put(&format!("{}/{}.guard", tag, ny), TRULES[r2].1);
+            put(&format!("{}/tests/{}_t.yaml", tag, ny), TFILES[f2].1);
         }
         let mut argv = sv(&["test", "--dir"]);
         argv.push(base.to_string_lossy().to_string());
@@ -510,12 +512,47 @@ pub fn run(tier: &str) -> i32 {
             TAllowed::NonZero => st != 0 && st != 101,
         };
         if !ok || o.panic.is_some() {
-            acc.violate(&format!("test-dir-two-files:{}:want-{:?}:got-{}", fmt, want, st), format!("test --dir with x.guard={} x_t={} y.guard={} y_t={} fmt={} exits {} (want {:?})", TRULES[r1].0, TFILES[f1].0, TRULES[r2].0, TFILES[f2].0, fmt, st, want), json!({"kind":"cli","argv":argv,"stdin":"","files":{"x.guard":TRULES[r1].1,"tests/x_t.yaml":TFILES[f1].1,"y.guard":TRULES[r2].1,"tests/y_t.yaml":TFILES[f2].1},"expected":format!("{:?}", want),"observed":format!("exit {}", st)}));
+            acc.violate(&format!("test-dir-two-files{}:{}:want-{:?}:got-{}", if nx == "x" { "" } else { "-prefix-names" }, fmt, want, st), format!("test --dir with {nx}.guard={} {nx}_t={} {ny}.guard={} {ny}_t={} fmt={} exits {} (want {:?})", TRULES[r1].0, TFILES[f1].0, TRULES[r2].0, TFILES[f2].0, fmt, st, want), json!({"kind":"cli","argv":argv,"stdin":"","files":{"x.guard":TRULES[r1].1,"tests/x_t.yaml":TFILES[f1].1,"y.guard":TRULES[r2].1,"tests/y_t.yaml":TFILES[f2].1},"expected":format!("{:?}", want),"observed":format!("exit {}", st)}));
         }
     }, Acc::merge);
     rep.states += dcases.len() as u64;
     rep.transitions += dcases.len() as u64;
     acc = Acc::merge(acc, dr.acc);
+    // ---- a rules file that cannot be read as text (not UTF-8) is a rules file that did not parse: never exit 0, and 19 only
+    //      when another rules file FAILs; alone, before and after a readable rules file, in every output mode
+    {
+        let d = reset_dir("c06u");
+        let bad = format!("{}/bad.guard", d);
+        std::fs::write(&bad, [b'r', b'u', b'l', b'e', b' ', b'r', b' ', b'{', b' ', b'a', b' ', b'=', b'=', b' ', b'"', 0xff, 0xfe, b'"', b' ', b'}', b'\n']).unwrap();
+        let pass = put("c06u/pass.guard", RK[0].1);
+        let fail = put("c06u/fail.guard", RK[1].1);
+        let ok_doc = put("c06u/ok.json", DK[0].1);
+        let bad_doc = put("c06u/nc.json", DK[1].1);
+        let mut n = 0u64;
+        for (label, rules, may_fail) in [("alone", vec![bad.clone()], false), ("before-passing", vec![bad.clone(), pass.clone()], false), ("after-passing", vec![pass.clone(), bad.clone()], false), ("before-failing", vec![bad.clone(), fail.clone()], true), ("after-failing", vec![fail.clone(), bad.clone()], true)] {
+            for doc in [&ok_doc, &bad_doc] {
+                for extra in [vec![], vec!["-S", "all"], vec!["-v"], vec!["-o", "json"], vec!["-o", "yaml"], vec!["--structured", "-o", "json", "-S", "none"], vec!["--structured", "-o", "yaml", "-S", "none"], vec!["--structured", "-o", "junit", "-S", "none"], vec!["--structured", "-o", "sarif", "-S", "none"]] {
+                    let mut argv = sv(&["validate"]);
+                    for r in &rules {
+                        argv.extend(vec!["-r".to_string(), r.clone()]);
+                    }
+                    argv.extend(vec!["-d".to_string(), doc.to_string()]);
+                    argv.extend(sv(&extra));
+                    let o = cli_inproc(&argv, "");
+                    n += 1;
+                    acc.traces += 1;
+                    let st = o.status();
+                    *acc.outcomes.entry(format!("unreadable-rules-exit-{}", st)).or_insert(0) += 1;
+                    let fails = may_fail && doc == &bad_doc;
+                    if o.panic.is_some() || st == 0 || st == 101 || (st == 19 && !fails) {
+                        acc.violate(&format!("unreadable-rules-file:{}:exit-{}", if extra.contains(&"--structured") { "structured" } else { "plain" }, st), format!("a rules file that is not UTF-8 ({}) with {:?}: exit {}", label, extra, st), json!({"kind":"cli","argv":argv,"stdin":"","files":{"bad.guard":"rule r { a == \"<0xFF 0xFE>\" }"},"expected":"a non-zero exit, 19 only when another rules file fails","observed":format!("exit {}", st)}));
+                    }
+                }
+            }
+        }
+        rep.states += n;
+        rep.transitions += n;
+    }
     rep.distinct_nontrivial = (rs.len() * ds.len()) as u64;
     rep.samples.push(json!({"rules": ["FAILING", "BROKEN"], "data": ["NONCOMPLIANT"], "mode": "StructJson", "allowed": "{5,19}"}));
     rep.samples.push(json!({"rules_kinds": RK.iter().map(|k| json!({"kind":k.0,"text":k.1})).collect::<Vec<_>>(), "data_kinds": DK.iter().map(|k| json!({"kind":k.0,"text":k.1})).collect::<Vec<_>>()}));
